@@ -3,6 +3,7 @@ import YgmVerif.Props.DistComm
 import YgmVerif.Props.C13
 import YgmVerif.Props.C14
 import YgmVerif.Props.C15
+import YgmVerif.Props.C16
 import YgmVerif.Props.C17
 /-!
 # C13 / C14 end to end over the joint messaging model
@@ -1683,4 +1684,1098 @@ theorem C17_connectivity_after_barrier (P : Par) (jls : List Label) (S : St)
     rw [← hiss'] at hxy
     exact DSet.complete hreach hq hxy
 
+/-! ### non-vacuity (C17) -/
+
+section DSetExample
+
+/-- the four messages of one `async_union(1, 2)` (cf. `DSet.ex1`): the initial walk to item 1, the switched walk to
+item 2, the walk back to item 1 (which attaches 1 below 2) and the `resolve_merge` to item 2 -/
+private def dsOp : Nat → DSet.Msg
+  | 1 => .walk false 1 1 2 2 (-1) 1 2
+  | 2 => .walk false 2 2 1 1 0 1 2
+  | 3 => .walk false 1 1 2 2 0 1 2
+  | _ => .resolve 2 1 0
+
+/-- 2 ranks, items owned by `item % 2`, direct routing -/
+private def dsPar : Par := { n := 2, nh := fun _ d => d, owner := fun x => x % 2, opOf := dsOp }
+
+private def dsRound2 : List Label :=
+  [.comm (.contribute 0), .comm (.contribute 1), .comm (.result 0), .comm (.result 1)]
+
+/-- rank 0 calls `async_union(1, 2)` and both ranks enter the barrier; the walk bounces rank 1 → rank 0 → rank 1 → rank 0,
+every handler issuing the next message from INSIDE the barrier -/
+private def dsDemo : List Label :=
+  [.union 0 1 false 1 2, .comm (.enter 0), .comm (.enter 1),
+   .comm (.isend 0 1), .comm (.recvBegin 1 0 0), .begin 1 1, .hsend 1 2, .comm (.execEnd 1 1), .comm (.recvEnd 1),
+   .comm (.isend 1 0), .comm (.recvBegin 0 1 0), .begin 0 2, .hsend 0 3, .comm (.execEnd 0 2), .comm (.recvEnd 0),
+   .comm (.isend 0 1), .comm (.recvBegin 1 0 1), .begin 1 3, .hsend 1 4, .comm (.execEnd 1 3), .comm (.recvEnd 1),
+   .comm (.isend 1 0), .comm (.recvBegin 0 1 1), .begin 0 4, .comm (.execEnd 0 4), .comm (.recvEnd 0)]
+  ++ dsRound2 ++ dsRound2
+
+set_option maxRecDepth 65536 in
+/-- the joint history is accepted; at its end the exit rule holds, nobody has left barrier 0 … -/
+example : ((run dsPar init dsDemo).map (fun S =>
+    (S.c.d.executed, BarrierME.exitEnabled S.c.b 0, (List.range 2).map S.c.b.epoch))) =
+    some ([(1, 1), (0, 2), (1, 3), (0, 4)], true, [0, 0]) := by decide
+
+set_option maxRecDepth 65536 in
+/-- … nothing of the disjoint_set is in flight, the ghost `issued` is the union of the history … -/
+example : ((run dsPar init dsDemo).map (fun S => (S.ds.msgs.length, S.fl, S.ds.issued))) = some (0, [], [(1, 2)]) := by
+  decide
+
+set_option maxRecDepth 65536 in
+/-- … 1 hangs below 2, the rank of 2 was bumped by `resolve_merge`, and both have the same representative -/
+example : ((run dsPar init dsDemo).map (fun S =>
+      (DSet.parent S.ds 1, decide (DSet.rank S.ds 2 = 1), decide (DSet.root S.ds 1 = DSet.root S.ds 2)))) =
+    some (2, true, true) := by decide
+
+/-- the end-to-end theorem applied to the demo -/
+example (S : St) (hrun : run dsPar init dsDemo = some S) (hx : BarrierME.exitEnabled S.c.b 0 = true)
+    (hne : ∀ q, q < 2 → S.c.b.epoch q ≤ S.c.b.epoch 0) : DSet.root S.ds 1 = DSet.root S.ds 2 := by
+  have h := (C17_connectivity_after_barrier dsPar dsDemo S hrun 0 (by decide) hx hne).2.2.2.2.1 1 2
+  exact h.2 (DSet.Conn.edge (by decide))
+
+set_option maxRecDepth 65536 in
+/-- the joint guards bite: a handler cannot return before it has issued what its body sends; it cannot issue a
+different message; a handler cannot start for a message that is not in flight in `DSet` -/
+example :
+    (run dsPar init [.union 0 1 false 1 2, .comm (.isend 0 1), .comm (.recvBegin 1 0 0), .begin 1 1,
+      .comm (.execEnd 1 1)]).isNone = true ∧
+    (run dsPar init [.union 0 1 false 1 2, .comm (.isend 0 1), .comm (.recvBegin 1 0 0), .begin 1 1,
+      .hsend 1 3]).isNone = true ∧
+    (run dsPar init [.union 0 1 false 1 2, .comm (.isend 0 1), .comm (.recvBegin 1 0 0), .begin 1 2]).isNone = true ∧
+    (run dsPar init [.union 0 1 false 1 2, .comm (.isend 0 1), .comm (.recvBegin 1 0 0), .begin 1 1,
+      .hsend 1 2, .comm (.execEnd 1 1)]).isSome = true := by decide
+
+end DSetExample
+
 end YgmVerif.DSetComm
+
+/-! ## C16 reducing adapter over the joint messaging model -/
+
+namespace YgmVerif.ReduceComm
+open YgmVerif
+open YgmVerif.Barrier (upd upd_same upd_other b2n)
+open YgmVerif.Cache (Frame Phase)
+open YgmVerif.CSetComm (isFall fallOnlyLast hasFall owed isFall_setPhase insLoop_notFall fallLoop_isFall fol_replace
+  fol_cons_nonfall fol_cons_fall fol_tail hasFall_cons)
+
+/-! ### the cache of one rank, any configuration -/
+
+def RInv (ns : Nat) (s : Cache.St Nat) : Prop :=
+  fallOnlyLast s.stack = true ∧ Cache.FlagInv s ∧ Cache.InRange ns s.cache
+
+theorem rinv_init (ns : Nat) : RInv ns (Cache.St.init : Cache.St Nat) :=
+  ⟨rfl, Cache.flagInv_init, fun t e ht => by simp [Cache.St.init, Cache.CMap.get] at ht⟩
+
+/-- what one cache step does to the flag, the frame kinds and the stack -/
+theorem step_rinv (cfg : Cache.Cfg Nat) (hn : 0 < cfg.nslots) (s s' : Cache.St Nat) (lab : Cache.Label Nat)
+    (hk : RInv cfg.nslots s) (h : Cache.step cfg s lab = some s') :
+    RInv cfg.nslots s' ∧
+    (match lab with
+     | .ins k _ => (if cfg.isOwner k = true then s'.reg = s.reg else s'.reg = true) ∧
+         hasFall s'.stack = hasFall s.stack
+     | .fb => s.reg = true ∧ hasFall s.stack = false ∧ s'.reg = false ∧ hasFall s'.stack = true
+     | .fe => s'.reg = s.reg ∧ hasFall s.stack = true ∧ hasFall s'.stack = false ∧ s'.stack = []
+     | .bar => s'.reg = s.reg ∧ hasFall s'.stack = hasFall s.stack
+     | _ => s'.reg = s.reg ∧ hasFall s'.stack = hasFall s.stack ∧ s.stack ≠ []) := by
+  obtain ⟨hf, hfl, hir⟩ := hk
+  have hfl' := Cache.step_flag cfg s s' lab hir hfl h
+  have hir' := Cache.step_inRange cfg hn s s' lab hir h
+  refine ⟨⟨?_, hfl', hir'⟩, ?_⟩
+  all_goals
+    cases lab with
+    | ins k v =>
+      simp only [Cache.step] at h
+      split at h
+      · split at h
+        · rename_i ho
+          simp only [Option.some.injEq] at h
+          subst h
+          first
+            | (show fallOnlyLast (_ :: s.stack) = true
+               rw [fol_cons_nonfall _ rfl]; exact hf)
+            | (simp only [ho, if_true]
+               exact ⟨trivial, by rw [hasFall_cons]; rfl⟩)
+        · rename_i ho
+          have hnf := insLoop_notFall cfg s.cache k v
+          cases hil : Cache.insLoop cfg s.cache k v with
+          | mk c f =>
+            rw [hil] at h hnf
+            simp only [Option.some.injEq] at h
+            subst h
+            simp only at hnf
+            first
+              | (show fallOnlyLast (f :: s.stack) = true
+                 rw [fol_cons_nonfall _ hnf]; exact hf)
+              | (simp only [ho, if_false]
+                 exact ⟨trivial, by rw [hasFall_cons, hnf]; rfl⟩)
+      · cases h
+    | pack =>
+      simp only [Cache.step] at h
+      split at h
+      · rename_i f rest hst
+        split at h
+        · simp only [Option.some.injEq] at h
+          subst h
+          have e := isFall_setPhase f Phase.sent
+          first
+            | (show fallOnlyLast (f.setPhase Phase.sent :: rest) = true
+               rw [fol_replace rest e, ← hst]; exact hf)
+            | (refine ⟨rfl, ?_, by rw [hst]; simp⟩
+               show hasFall (f.setPhase Phase.sent :: rest) = hasFall s.stack
+               rw [hst, hasFall_cons, hasFall_cons, e])
+        · cases h
+      · cases h
+    | ret =>
+      simp only [Cache.step] at h
+      split at h
+      · rename_i k v rest hst
+        have hnf := insLoop_notFall cfg s.cache k v
+        cases hil : Cache.insLoop cfg s.cache k v with
+        | mk c f =>
+          rw [hil] at h hnf
+          simp only [Option.some.injEq] at h
+          subst h
+          simp only at hnf
+          have e : isFall f = isFall (Frame.ins k v Phase.sent) := by rw [hnf]; rfl
+          first
+            | (show fallOnlyLast (f :: rest) = true
+               rw [fol_replace rest e, ← hst]; exact hf)
+            | (refine ⟨rfl, ?_, by rw [hst]; simp⟩
+               show hasFall (f :: rest) = hasFall s.stack
+               rw [hst, hasFall_cons, hasFall_cons, e])
+      · rename_i rest hst
+        simp only [Option.some.injEq] at h
+        subst h
+        have e : isFall (Frame.tail Phase.fin : Frame Nat) = isFall (Frame.tail Phase.sent) := rfl
+        first
+          | (show fallOnlyLast (Frame.tail Phase.fin :: rest) = true
+             rw [fol_replace rest e, ← hst]; exact hf)
+          | (refine ⟨rfl, ?_, by rw [hst]; simp⟩
+             show hasFall (Frame.tail Phase.fin :: rest) = hasFall s.stack
+             rw [hst, hasFall_cons, hasFall_cons, e])
+      · rename_i i rest hst
+        have hfl2 := fallLoop_isFall cfg s.cache i
+        cases hil : Cache.fallLoop cfg s.cache i with
+        | mk c f =>
+          rw [hil] at h hfl2
+          simp only [Option.some.injEq] at h
+          subst h
+          simp only at hfl2
+          have e : isFall f = isFall (Frame.fall i Phase.sent) := by rw [hfl2]; rfl
+          first
+            | (show fallOnlyLast (f :: rest) = true
+               rw [fol_replace rest e, ← hst]; exact hf)
+            | (refine ⟨rfl, ?_, by rw [hst]; simp⟩
+               show hasFall (f :: rest) = hasFall s.stack
+               rw [hst, hasFall_cons, hasFall_cons, e])
+      · cases h
+    | done =>
+      simp only [Cache.step] at h
+      split at h
+      · rename_i rest hst
+        simp only [Option.some.injEq] at h
+        subst h
+        first
+          | (show fallOnlyLast rest = true
+             rw [hst] at hf; exact fol_tail hf)
+          | (refine ⟨rfl, ?_, by rw [hst]; simp⟩
+             show hasFall rest = hasFall s.stack
+             rw [hst, hasFall_cons]; rfl)
+      · cases h
+    | fb =>
+      simp only [Cache.step] at h
+      split at h
+      · rename_i hc
+        have hfl2 := fallLoop_isFall cfg s.cache 0
+        cases hil : Cache.fallLoop cfg s.cache 0 with
+        | mk c f =>
+          rw [hil] at h hfl2
+          simp only [Option.some.injEq] at h
+          subst h
+          simp only at hfl2
+          have hemp : s.stack = [] := by
+            cases hst : s.stack with
+            | nil => rfl
+            | cons a b => rw [hst] at hc; simp at hc
+          first
+            | rfl
+            | (refine ⟨hc.2, by rw [hemp]; rfl, rfl, ?_⟩
+               show hasFall [f] = true
+               rw [hasFall_cons, hfl2]; rfl)
+      · cases h
+    | fe =>
+      simp only [Cache.step] at h
+      split at h
+      · rename_i i rest hst
+        simp only [Option.some.injEq] at h
+        subst h
+        have hr : rest = [] := fol_cons_fall (f := Frame.fall i Phase.fin) rfl (hst ▸ hf)
+        subst hr
+        first
+          | rfl
+          | exact ⟨rfl, by rw [hst]; rfl, rfl, rfl⟩
+      · cases h
+    | bar =>
+      simp only [Cache.step] at h
+      split at h
+      · simp only [Option.some.injEq] at h
+        subst h
+        first
+          | exact hf
+          | exact ⟨rfl, rfl⟩
+      · cases h
+
+/-! ### inversion of `Cache.netStep` -/
+
+theorem getD_set' {β : Type} (L : List β) (r q : Nat) (x d : β) (hr : r < L.length) :
+    (L.set r x).getD q d = if q = r then x else L.getD q d := by
+  simp only [List.getD_eq_getElem?_getD, List.getElem?_set]
+  by_cases h : q = r
+  · subst h; simp [hr]
+  · have : ¬ r = q := fun e => h e.symm
+    simp [h, this]
+
+theorem getD_of_getElem? {β : Type} {L : List β} {r : Nat} {x : β} (d : β) (h : L[r]? = some x) :
+    L.getD r d = x ∧ r < L.length := by
+  refine ⟨by simp [List.getD_eq_getElem?_getD, h], (List.getElem?_eq_some_iff.1 h).1⟩
+
+theorem netStep_user {nc : Cache.NetCfg Nat} {n n' : Cache.Net Nat} {r k v : Nat}
+    (h : Cache.netStep nc n (.user r k v) = some n') :
+    ∃ s s', n.ranks[r]? = some s ∧ Cache.step (nc.at r) s (.ins k v) = some s' ∧
+      n' = { n with ranks := n.ranks.set r s' } := by
+  simp only [Cache.netStep] at h
+  split at h
+  · cases h
+  · rename_i s hs
+    split at h
+    · cases h
+    · rename_i s' hs'
+      exact ⟨s, s', hs, hs', (Option.some.inj h).symm⟩
+
+/-- what a local label does to the in-flight list: `pack` adds the message it serialises -/
+def flightAfter (nc : Cache.NetCfg Nat) (r : Nat) (lab : Cache.Label Nat) (s : Cache.St Nat)
+    (fl : List (Nat × Cache.Msg Nat)) : List (Nat × Cache.Msg Nat) :=
+  match lab, Cache.pending s with
+  | .pack, some m => (nc.dest r m, m) :: fl
+  | _, _ => fl
+
+theorem netStep_loc {nc : Cache.NetCfg Nat} {n n' : Cache.Net Nat} {r : Nat} {lab : Cache.Label Nat}
+    (hl : ∀ k v, lab ≠ .ins k v) (h : Cache.netStep nc n (.loc r lab) = some n') :
+    ∃ s s', n.ranks[r]? = some s ∧ Cache.step (nc.at r) s lab = some s' ∧ n'.ranks = n.ranks.set r s' ∧
+      n'.stored = n.stored ∧ n'.flight = flightAfter nc r lab s n.flight := by
+  cases lab with
+  | ins k v => exact absurd rfl (hl k v)
+  | pack =>
+    simp only [Cache.netStep] at h
+    split at h
+    · cases h
+    · rename_i s hs
+      split at h
+      · cases h
+      · rename_i s' hs'
+        refine ⟨s, s', hs, hs', ?_⟩
+        split at h
+        · rename_i m hp
+          rw [← Option.some.inj h]; simp [flightAfter, hp]
+        · rename_i hp
+          rw [← Option.some.inj h]
+          refine ⟨rfl, rfl, ?_⟩
+          unfold flightAfter
+          cases hpd : Cache.pending s with
+          | none => rfl
+          | some m => exact (hp m rfl hpd).elim
+  | ret =>
+    simp only [Cache.netStep] at h
+    split at h
+    · cases h
+    · rename_i s hs
+      split at h
+      · cases h
+      · rename_i s' hs'
+        refine ⟨s, s', hs, hs', ?_⟩
+        rw [← Option.some.inj h]; exact ⟨rfl, rfl, rfl⟩
+  | done =>
+    simp only [Cache.netStep] at h
+    split at h
+    · cases h
+    · rename_i s hs
+      split at h
+      · cases h
+      · rename_i s' hs'
+        refine ⟨s, s', hs, hs', ?_⟩
+        rw [← Option.some.inj h]; exact ⟨rfl, rfl, rfl⟩
+  | fb =>
+    simp only [Cache.netStep] at h
+    split at h
+    · cases h
+    · rename_i s hs
+      split at h
+      · cases h
+      · rename_i s' hs'
+        refine ⟨s, s', hs, hs', ?_⟩
+        rw [← Option.some.inj h]; exact ⟨rfl, rfl, rfl⟩
+  | fe =>
+    simp only [Cache.netStep] at h
+    split at h
+    · cases h
+    · rename_i s hs
+      split at h
+      · cases h
+      · rename_i s' hs'
+        refine ⟨s, s', hs, hs', ?_⟩
+        rw [← Option.some.inj h]; exact ⟨rfl, rfl, rfl⟩
+  | bar =>
+    simp only [Cache.netStep] at h
+    split at h
+    · cases h
+    · rename_i s hs
+      split at h
+      · cases h
+      · rename_i s' hs'
+        refine ⟨s, s', hs, hs', ?_⟩
+        rw [← Option.some.inj h]; exact ⟨rfl, rfl, rfl⟩
+
+theorem netStep_deliver {nc : Cache.NetCfg Nat} {n n' : Cache.Net Nat} {i : Nat}
+    (h : Cache.netStep nc n (.deliver i) = some n') :
+    ∃ d m, n.flight[i]? = some (d, m) ∧ n'.flight = n.flight.eraseIdx i ∧
+      ((m.toContainer = true ∧ n'.ranks = n.ranks) ∨
+       (m.toContainer = false ∧ n'.stored = n.stored ∧ ∃ s s', n.ranks[d]? = some s ∧
+          Cache.step (nc.at d) s (.ins m.key m.val) = some s' ∧ n'.ranks = n.ranks.set d s')) := by
+  simp only [Cache.netStep] at h
+  split at h
+  · cases h
+  · rename_i d m hf
+    refine ⟨d, m, hf, ?_⟩
+    split at h
+    · rename_i ht
+      rw [← Option.some.inj h]
+      exact ⟨rfl, Or.inl ⟨ht, rfl⟩⟩
+    · rename_i ht
+      split at h
+      · cases h
+      · rename_i s hs
+        split at h
+        · cases h
+        · rename_i s' hs'
+          rw [← Option.some.inj h]
+          exact ⟨rfl, Or.inr ⟨by simpa using ht, rfl, s, s', hs, hs', rfl⟩⟩
+
+/-! ### what the `Comm` side does to the counters the linking invariant reads -/
+
+/-- the rank a `Comm` label belongs to -/
+def commRank : Comm.Label → Nat
+  | .async r _ _ _ => r
+  | .isend r _ => r
+  | .recvBegin r _ _ => r
+  | .fwd r _ => r
+  | .recvEnd r => r
+  | .execBegin r _ => r
+  | .execEnd r _ => r
+  | .regcb r => r
+  | .runcb r _ _ => r
+  | .enter r => r
+  | .contribute r => r
+  | .result r => r
+  | .exit r => r
+
+/-- a `Comm` label of rank r leaves `busy`, `inBar`, `cbs` of every other rank alone -/
+theorem comm_other {n : Nat} {nh : Nat → Nat → Nat} {c c' : Comm.St} {l : Comm.Label}
+    (h : Comm.step n nh c l = some c') (q : Nat) (hq : q ≠ commRank l) :
+    c'.b.busy q = c.b.busy q ∧ c'.b.inBar q = c.b.inBar q ∧ c'.b.cbs q = c.b.cbs q := by
+  have hB := (Comm.step_some h).2.2.1
+  cases l <;> simp only [commRank] at hq <;>
+    simp only [Comm.projB, Comm.bRun_single, BarrierME.run, BarrierME.step] at hB
+  all_goals first
+    | (rw [← Option.some.inj hB]; exact ⟨rfl, rfl, rfl⟩)
+    | (split at hB
+       · rw [← Option.some.inj hB]
+         simp only [upd_other _ _ _ _ hq]
+         exact ⟨trivial, trivial, trivial⟩
+       · cases hB)
+
+theorem comm_run_other {n : Nat} {nh : Nat → Nat → Nat} {r : Nat} : ∀ (ls : List Comm.Label) {c c' : Comm.St},
+    Comm.run n nh c ls = some c' → (∀ l ∈ ls, commRank l = r) → ∀ q, q ≠ r →
+    c'.b.busy q = c.b.busy q ∧ c'.b.inBar q = c.b.inBar q ∧ c'.b.cbs q = c.b.cbs q
+  | [], c, c', h, _, q, _ => by simp only [Comm.run] at h; cases h; exact ⟨rfl, rfl, rfl⟩
+  | l :: ls, c, c', h, hl, q, hq => by
+    simp only [Comm.run] at h
+    cases hs : Comm.step n nh c l with
+    | none => rw [hs] at h; cases h
+    | some c1 =>
+      rw [hs] at h
+      have h1 := comm_other hs q (by rw [hl l List.mem_cons_self]; exact hq)
+      have h2 := comm_run_other ls h (fun l' hl' => hl l' (List.mem_cons_of_mem _ hl')) q hq
+      exact ⟨h2.1.trans h1.1, h2.2.1.trans h1.2.1, h2.2.2.trans h1.2.2⟩
+
+theorem comm_async {n : Nat} {nh : Nat → Nat → Nat} {c c' : Comm.St} {r uid dest : Nat} {direct : Bool}
+    (h : Comm.step n nh c (.async r uid dest direct) = some c') :
+    (c.b.inBar r = false ∨ c.b.busy r = true) ∧ c'.b.und = c.b.und + 1 ∧ c'.b.busy = c.b.busy ∧
+      c'.b.inBar = c.b.inBar ∧ c'.b.cbs = c.b.cbs := by
+  have hB := (Comm.step_some h).2.2.1
+  simp only [Comm.projB, Comm.bRun_single, BarrierME.step] at hB
+  split at hB
+  · rename_i hc
+    rw [← Option.some.inj hB]; exact ⟨hc.2, rfl, rfl, rfl, rfl⟩
+  · cases hB
+
+theorem comm_regcb {n : Nat} {nh : Nat → Nat → Nat} {c c' : Comm.St} {r : Nat}
+    (h : Comm.step n nh c (.regcb r) = some c') :
+    c'.b.und = c.b.und ∧ c'.b.busy = c.b.busy ∧ c'.b.inBar = c.b.inBar ∧
+      c'.b.cbs = upd c.b.cbs r (c.b.cbs r + 1) := by
+  have hB := (Comm.step_some h).2.2.1
+  simp only [Comm.projB, Comm.bRun_single, BarrierME.step] at hB
+  split at hB
+  · rw [← Option.some.inj hB]; exact ⟨rfl, rfl, rfl, rfl⟩
+  · cases hB
+
+theorem comm_runcb {n : Nat} {nh : Nat → Nat → Nat} {c c' : Comm.St} {r j : Nat} {msgs : List Comm.Msg}
+    (h : Comm.step n nh c (.runcb r msgs j) = some c') :
+    0 < c.b.cbs r ∧ c.b.busy r = false ∧ c'.b.und = c.b.und + msgs.length ∧ c'.b.busy = c.b.busy ∧
+      c'.b.inBar = c.b.inBar ∧ c'.b.cbs = upd c.b.cbs r (c.b.cbs r - 1 + j) := by
+  have hB := (Comm.step_some h).2.2.1
+  simp only [Comm.projB, Comm.bRun_single, BarrierME.step] at hB
+  split at hB
+  · rename_i hc
+    rw [← Option.some.inj hB]; exact ⟨hc.2.1, hc.2.2, rfl, rfl, rfl, rfl⟩
+  · cases hB
+
+theorem comm_execBegin {n : Nat} {nh : Nat → Nat → Nat} {c c' : Comm.St} {r uid : Nat}
+    (h : Comm.step n nh c (.execBegin r uid) = some c') :
+    0 < c.b.und ∧ c.b.busy r = false ∧ c'.b.und = c.b.und - 1 ∧ c'.b.busy = upd c.b.busy r true ∧
+      c'.b.inBar = c.b.inBar ∧ c'.b.cbs = c.b.cbs := by
+  have hB := (Comm.step_some h).2.2.1
+  simp only [Comm.projB, Comm.bRun_single, BarrierME.step] at hB
+  split at hB
+  · rename_i hc
+    rw [← Option.some.inj hB]; exact ⟨hc.2.1, hc.2.2, rfl, rfl, rfl, rfl⟩
+  · cases hB
+
+/-- the labels that occur on their own: `und` and `cbs` are untouched; `busy` / `inBar` change only at the end of a
+handler and at the entry / return of `barrier()` -/
+theorem comm_allowed {n : Nat} {nh : Nat → Nat → Nat} {c c' : Comm.St} {l : Comm.Label}
+    (ha : allowed l = true) (h : Comm.step n nh c l = some c') :
+    c'.b.und = c.b.und ∧ c'.b.cbs = c.b.cbs ∧
+    ((c'.b.busy = c.b.busy ∧ c'.b.inBar = c.b.inBar) ∨
+     (∃ r uid, l = .execEnd r uid ∧ c.b.busy r = true ∧ c'.b.busy = upd c.b.busy r false ∧ c'.b.inBar = c.b.inBar) ∨
+     (∃ r, l = .enter r ∧ c.b.busy r = false ∧ c'.b.busy = c.b.busy ∧ c'.b.inBar = upd c.b.inBar r true) ∨
+     (∃ r, l = .exit r ∧ c'.b.busy = c.b.busy ∧ c'.b.inBar = upd c.b.inBar r false)) := by
+  have hB := (Comm.step_some h).2.2.1
+  cases l with
+  | async r uid dest direct => cases ha
+  | runcb r msgs j => cases ha
+  | execBegin r uid => cases ha
+  | regcb r => cases ha
+  | isend r hop =>
+    simp only [Comm.projB, BarrierME.run] at hB; rw [← Option.some.inj hB]; exact ⟨rfl, rfl, Or.inl ⟨rfl, rfl⟩⟩
+  | recvBegin r src seq =>
+    simp only [Comm.projB, BarrierME.run] at hB; rw [← Option.some.inj hB]; exact ⟨rfl, rfl, Or.inl ⟨rfl, rfl⟩⟩
+  | fwd r uid =>
+    simp only [Comm.projB, BarrierME.run] at hB; rw [← Option.some.inj hB]; exact ⟨rfl, rfl, Or.inl ⟨rfl, rfl⟩⟩
+  | recvEnd r =>
+    simp only [Comm.projB, BarrierME.run] at hB; rw [← Option.some.inj hB]; exact ⟨rfl, rfl, Or.inl ⟨rfl, rfl⟩⟩
+  | execEnd r uid =>
+    simp only [Comm.projB, Comm.bRun_single, BarrierME.step] at hB
+    split at hB
+    · rename_i hc
+      rw [← Option.some.inj hB]; exact ⟨rfl, rfl, Or.inr (Or.inl ⟨r, uid, rfl, hc.2, rfl, rfl⟩)⟩
+    · cases hB
+  | enter r =>
+    simp only [Comm.projB, Comm.bRun_single, BarrierME.step] at hB
+    split at hB
+    · rename_i hc
+      rw [← Option.some.inj hB]; exact ⟨rfl, rfl, Or.inr (Or.inr (Or.inl ⟨r, rfl, hc.2.2, rfl, rfl⟩))⟩
+    · cases hB
+  | contribute r =>
+    simp only [Comm.projB, Comm.bRun_single, BarrierME.step] at hB
+    split at hB
+    · rw [← Option.some.inj hB]; exact ⟨rfl, rfl, Or.inl ⟨rfl, rfl⟩⟩
+    · cases hB
+  | result r =>
+    simp only [Comm.projB, Comm.bRun_single, BarrierME.step] at hB
+    split at hB
+    · rw [← Option.some.inj hB]; exact ⟨rfl, rfl, Or.inl ⟨rfl, rfl⟩⟩
+    · cases hB
+  | exit r =>
+    simp only [Comm.projB, Comm.bRun_single, BarrierME.step] at hB
+    split at hB
+    · rw [← Option.some.inj hB]; exact ⟨rfl, rfl, Or.inr (Or.inr (Or.inr ⟨r, rfl, rfl, rfl⟩))⟩
+    · cases hB
+
+theorem comm_run_single {n : Nat} {nh : Nat → Nat → Nat} {c c' : Comm.St} {l : Comm.Label}
+    (h : Comm.run n nh c [l] = some c') : Comm.step n nh c l = some c' :=
+  CSetComm.comm_run_single h
+
+theorem comm_run_two {n : Nat} {nh : Nat → Nat → Nat} {c c' : Comm.St} {l1 l2 : Comm.Label}
+    (h : Comm.run n nh c [l1, l2] = some c') :
+    ∃ c1, Comm.step n nh c l1 = some c1 ∧ Comm.step n nh c1 l2 = some c' := by
+  simp only [Comm.run] at h
+  cases hs : Comm.step n nh c l1 with
+  | none => rw [hs] at h; cases h
+  | some c1 =>
+    rw [hs] at h
+    refine ⟨c1, rfl, ?_⟩
+    simp only at h
+    cases hs2 : Comm.step n nh c1 l2 with
+    | none => rw [hs2] at h; cases h
+    | some c2 => rw [hs2] at h; simpa using h
+
+/-! ### the linking invariant -/
+
+/-- per rank: the cache invariant; the communicator holds a callback for a cache that needs one; a rank waiting in
+`barrier()` with no handler running and no callback pending has no container call in progress; a handler that started
+in that situation started with an empty call stack -/
+def QInv (ns : Nat) (s : Cache.St Nat) (busy inBar : Bool) (cbs hb : Nat) : Prop :=
+  RInv ns s ∧ owed s ≤ cbs ∧ (busy = false → inBar = true → cbs = 0 → s.stack = []) ∧
+    (busy = true → inBar = true → cbs = 0 → hb = 0)
+
+/-- all ranks have a cache; the partial values in flight are `Comm`'s messages whose handler has not started (their
+number is `BarrierME.und`); `QInv` on every rank -/
+def JInv (P : Par) (S : St) : Prop :=
+  S.net.ranks.length = P.n ∧ S.net.flight.length = S.c.b.und ∧
+  ∀ q, q < P.n → QInv P.nc.nslots (rankSt S q) (S.c.b.busy q) (S.c.b.inBar q) (S.c.b.cbs q) (S.hb q)
+
+theorem jinv_init (P : Par) (st0 : List (Nat × Nat)) : JInv P (init P st0) := by
+  refine ⟨by simp [init, Cache.Net.init], rfl, ?_⟩
+  intro q hq
+  have : rankSt (init P st0) q = Cache.St.init := by
+    simp [rankSt, init, Cache.Net.init, List.getD_eq_getElem?_getD, hq]
+  rw [this]
+  exact ⟨rinv_init _, Nat.zero_le _, fun _ _ _ => rfl, fun h => by cases h⟩
+
+theorem step_some {P : Par} {S S' : St} {l : Label} (h : step P S l = some S') :
+    guard P S l = true ∧ Comm.run P.n P.nh S.c (projC P l) = some S'.c ∧ nStep P S l = some S'.net ∧
+      S'.hb = nextHb S l := by
+  unfold step at h
+  split at h
+  · rename_i hg
+    split at h
+    · rename_i c' net' hc hk
+      cases h
+      exact ⟨hg, hc, hk, rfl⟩
+    · cases h
+  · cases h
+
+theorem jinv_of {P : Par} {S S' : St} {r : Nat} (hi : JInv P S)
+    (hlen : S'.net.ranks.length = P.n) (hfl : S'.net.flight.length = S'.c.b.und)
+    (hother : ∀ q, q ≠ r → rankSt S' q = rankSt S q ∧ S'.c.b.busy q = S.c.b.busy q ∧
+      S'.c.b.inBar q = S.c.b.inBar q ∧ S'.c.b.cbs q = S.c.b.cbs q ∧ S'.hb q = S.hb q)
+    (hr' : r < P.n → QInv P.nc.nslots (rankSt S' r) (S'.c.b.busy r) (S'.c.b.inBar r) (S'.c.b.cbs r) (S'.hb r)) :
+    JInv P S' := by
+  refine ⟨hlen, hfl, ?_⟩
+  intro q hq
+  by_cases hqr : q = r
+  · subst hqr; exact hr' hq
+  · obtain ⟨e1, e2, e3, e4, e5⟩ := hother q hqr
+    rw [e1, e2, e3, e4, e5]; exact hi.2.2 q hq
+
+theorem rankSt_set {S S' : St} {r : Nat} {s' : Cache.St Nat} (hr : r < S.net.ranks.length)
+    (h : S'.net.ranks = S.net.ranks.set r s') (q : Nat) :
+    rankSt S' q = if q = r then s' else rankSt S q := by
+  unfold rankSt
+  rw [h, getD_set' _ _ _ _ _ hr]
+
+theorem flightAfter_nopack {nc : Cache.NetCfg Nat} {r : Nat} {lab : Cache.Label Nat} {s : Cache.St Nat}
+    {fl : List (Nat × Cache.Msg Nat)} (h : lab ≠ .pack) : flightAfter nc r lab s fl = fl := by
+  unfold flightAfter
+  cases lab <;> first | exact absurd rfl h | (cases Cache.pending s <;> rfl)
+
+theorem flightAfter_pack {nc : Cache.NetCfg Nat} {r : Nat} {s : Cache.St Nat} {m : Cache.Msg Nat}
+    {fl : List (Nat × Cache.Msg Nat)} (h : Cache.pending s = some m) :
+    flightAfter nc r .pack s fl = (nc.dest r m, m) :: fl := by
+  unfold flightAfter
+  rw [h]
+
+theorem other_of {P : Par} {S S' : St} {r : Nat} {l : Label}
+    (hc : Comm.run P.n P.nh S.c (projC P l) = some S'.c) (hrank : ∀ l' ∈ projC P l, commRank l' = r)
+    (hranks : ∀ q, q ≠ r → rankSt S' q = rankSt S q) (hhb : ∀ q, q ≠ r → S'.hb q = S.hb q) :
+    ∀ q, q ≠ r → rankSt S' q = rankSt S q ∧ S'.c.b.busy q = S.c.b.busy q ∧
+      S'.c.b.inBar q = S.c.b.inBar q ∧ S'.c.b.cbs q = S.c.b.cbs q ∧ S'.hb q = S.hb q := by
+  intro q hq
+  obtain ⟨e1, e2, e3⟩ := comm_run_other _ hc hrank q hq
+  exact ⟨hranks q hq, e1, e2, e3, hhb q hq⟩
+
+theorem rank_lookup {S : St} {r : Nat} {s : Cache.St Nat} (h : S.net.ranks[r]? = some s) :
+    rankSt S r = s ∧ r < S.net.ranks.length := getD_of_getElem? _ h
+
+theorem nslots_at (nc : Cache.NetCfg Nat) (r : Nat) : (nc.at r).nslots = nc.nslots := rfl
+
+/-- the `ins` of a `cache_reduce` (from user code or from the handler of a forwarded partial value): the callback
+counter grows exactly when the cache registers -/
+theorem owed_ins {nc : Cache.NetCfg Nat} {r k : Nat} {s s' : Cache.St Nat} {cbs cbs' : Nat} {first : Bool}
+    (hrel : (if (nc.at r).isOwner k = true then s'.reg = s.reg else s'.reg = true) ∧ hasFall s'.stack = hasFall s.stack)
+    (hfirst : first = (!s.reg && !(nc.at r).isOwner k)) (hcb : cbs' = if first then cbs + 1 else cbs)
+    (ho : owed s ≤ cbs) : owed s' ≤ cbs' ∧ (cbs' = 0 → first = false ∧ cbs = 0) := by
+  unfold owed at ho ⊢
+  rw [hrel.2]
+  cases hown : (nc.at r).isOwner k <;> cases hreg : s.reg <;> rw [hown] at hrel hfirst <;> rw [hreg] at hfirst ho <;>
+    simp at hrel hfirst <;> subst hfirst <;> simp at hcb <;> subst hcb <;>
+    (first | rw [hrel.1] | skip) <;> (try rw [hreg]) <;> simp [b2n] at ho ⊢ <;> omega
+
+theorem step_jinv {P : Par} (hn : 0 < P.nc.nslots) {S S' : St} {l : Label} (hi : JInv P S)
+    (h : step P S l = some S') : JInv P S' := by
+  obtain ⟨hg, hc, hk, hhb⟩ := step_some h
+  obtain ⟨ilen, ifl, iq⟩ := hi
+  have hi : JInv P S := ⟨ilen, ifl, iq⟩
+  cases l with
+  | comm l0 =>
+    simp only [nStep, netLabel] at hk
+    have hnet : S'.net = S.net := (Option.some.inj hk).symm
+    simp only [nextHb] at hhb
+    simp only [guard, Bool.and_eq_true] at hg
+    obtain ⟨hu, hcb, hcase⟩ := comm_allowed hg.1 (comm_run_single hc)
+    have hrs : ∀ q, rankSt S' q = rankSt S q := fun q => by unfold rankSt; rw [hnet]
+    refine ⟨by rw [hnet]; exact ilen, by rw [hnet, hu]; exact ifl, ?_⟩
+    intro q hq
+    obtain ⟨q1, q2, q3, q4⟩ := iq q hq
+    rw [hrs q, hcb, hhb]
+    rcases hcase with ⟨hb, hib⟩ | ⟨r, uid, rfl, hbr, hb, hib⟩ | ⟨r, rfl, hbr, hb, hib⟩ | ⟨r, rfl, hb, hib⟩
+    · rw [hb, hib]; exact ⟨q1, q2, q3, q4⟩
+    · rw [hb, hib]
+      by_cases hqr : q = r
+      · subst hqr
+        rw [upd_same]
+        refine ⟨q1, q2, fun _ h2 h3 => ?_, fun h1 => by cases h1⟩
+        have h0 := q4 hbr h2 h3
+        have hlen := hg.2
+        simp only [beq_iff_eq] at hlen
+        rw [h0] at hlen
+        exact List.eq_nil_of_length_eq_zero hlen
+      · rw [upd_other _ _ _ _ hqr]; exact ⟨q1, q2, q3, q4⟩
+    · rw [hb, hib]
+      by_cases hqr : q = r
+      · subst hqr
+        rw [upd_same]
+        refine ⟨q1, q2, fun _ _ _ => ?_, fun h1 => by rw [hbr] at h1; cases h1⟩
+        have := hg.2
+        simpa using this
+      · rw [upd_other _ _ _ _ hqr]; exact ⟨q1, q2, q3, q4⟩
+    · rw [hb, hib]
+      by_cases hqr : q = r
+      · subst hqr
+        rw [upd_same]
+        exact ⟨q1, q2, (fun _ h2 => Bool.noConfusion h2), (fun _ h2 => Bool.noConfusion h2)⟩
+      · rw [upd_other _ _ _ _ hqr]; exact ⟨q1, q2, q3, q4⟩
+  | user r k v first =>
+    simp only [nStep, netLabel] at hk
+    obtain ⟨s, s', hs, hst, hnet⟩ := netStep_user hk
+    obtain ⟨hrs, hrl⟩ := rank_lookup hs
+    simp only [nextHb] at hhb
+    simp only [guard, Bool.and_eq_true, decide_eq_true_eq, Bool.or_eq_true, beq_iff_eq] at hg
+    obtain ⟨⟨hrn, hctx⟩, hfirst⟩ := hg
+    obtain ⟨q1, q2, q3, q4⟩ := iq r hrn
+    rw [hrs] at q1 q2 q3
+    have hranks : S'.net.ranks = S.net.ranks.set r s' := by rw [hnet]
+    obtain ⟨hri, hrel⟩ := step_rinv (P.nc.at r) hn s s' _ q1 hst
+    simp only at hrel
+    have hfirst' : first = (!s.reg && !(P.nc.at r).isOwner k) := by rw [hfirst, registers, hrs]
+    -- the Comm side
+    have hcomm : S'.c.b.und = S.c.b.und ∧ S'.c.b.busy = S.c.b.busy ∧ S'.c.b.inBar = S.c.b.inBar ∧
+        S'.c.b.cbs r = if first then S.c.b.cbs r + 1 else S.c.b.cbs r := by
+      cases first with
+      | true =>
+        simp only [projC, if_true] at hc
+        obtain ⟨e1, e2, e3, e4⟩ := comm_regcb (comm_run_single hc)
+        exact ⟨e1, e2, e3, by rw [e4, upd_same]; rfl⟩
+      | false =>
+        simp only [projC, Bool.false_eq_true, if_false, Comm.run, Option.some.injEq] at hc
+        rw [← hc]; exact ⟨rfl, rfl, rfl, rfl⟩
+    obtain ⟨cu, cb, ci, cc⟩ := hcomm
+    obtain ⟨ho, hz⟩ := owed_ins hrel hfirst' cc q2
+    refine jinv_of (r := r) hi (by rw [hranks, List.length_set]; exact ilen) (by rw [hnet, cu]; exact ifl)
+      (other_of (r := r) hc (by intro l' hl'; cases first <;> simp [projC] at hl'; subst hl'; rfl)
+        (fun q hq => by rw [rankSt_set hrl hranks, if_neg hq]) (fun q _ => by rw [hhb])) ?_
+    intro _
+    rw [rankSt_set hrl hranks, if_pos rfl, cb, ci, hhb]
+    refine ⟨hri, ho, fun h1 h2 _ => ?_, fun h1 h2 h3 => ?_⟩
+    · rcases hctx with hctx | hctx
+      · rw [hctx] at h2; cases h2
+      · rw [hctx] at h1; cases h1
+    · obtain ⟨_, hz0⟩ := hz h3
+      exact q4 h1 h2 hz0
+  | pack r uid =>
+    simp only [nStep, netLabel] at hk
+    obtain ⟨s, s', hs, hst, hranks, _, hflight⟩ := netStep_loc (by intro k v e; cases e) hk
+    obtain ⟨hrs, hrl⟩ := rank_lookup hs
+    simp only [nextHb] at hhb
+    simp only [guard, Bool.and_eq_true, decide_eq_true_eq, beq_iff_eq] at hg
+    obtain ⟨hrn, hpend⟩ := hg
+    rw [hrs] at hpend
+    obtain ⟨q1, q2, q3, q4⟩ := iq r hrn
+    rw [hrs] at q1 q2 q3
+    obtain ⟨hri, hrel⟩ := step_rinv (P.nc.at r) hn s s' _ q1 hst
+    simp only at hrel
+    simp only [projC] at hc
+    obtain ⟨hctx, cu, cb, ci, cc⟩ := comm_async (comm_run_single hc)
+    refine jinv_of (r := r) hi (by rw [hranks, List.length_set]; exact ilen)
+      (by rw [hflight, flightAfter_pack hpend, List.length_cons, cu, ifl])
+      (other_of (r := r) (l := .pack r uid) hc (by intro l' hl'; simp [projC] at hl'; subst hl'; rfl)
+        (fun q hq => by rw [rankSt_set hrl hranks, if_neg hq]) (fun q _ => by rw [hhb])) ?_
+    intro _
+    rw [rankSt_set hrl hranks, if_pos rfl, cb, ci, cc, hhb]
+    refine ⟨hri, ?_, fun h1 h2 _ => ?_, q4⟩
+    · unfold owed at q2 ⊢; rw [hrel.1, hrel.2.1]; exact q2
+    · rcases hctx with hctx | hctx
+      · rw [hctx] at h2; cases h2
+      · rw [hctx] at h1; cases h1
+  | cbpack r uid =>
+    simp only [nStep, netLabel] at hk
+    obtain ⟨s, s', hs, hst, hranks, _, hflight⟩ := netStep_loc (by intro k v e; cases e) hk
+    obtain ⟨hrs, hrl⟩ := rank_lookup hs
+    simp only [nextHb] at hhb
+    simp only [guard, Bool.and_eq_true, decide_eq_true_eq, beq_iff_eq] at hg
+    obtain ⟨hrn, hpend⟩ := hg
+    rw [hrs] at hpend
+    obtain ⟨q1, q2, q3, q4⟩ := iq r hrn
+    rw [hrs] at q1 q2 q3
+    obtain ⟨hri, hrel⟩ := step_rinv (P.nc.at r) hn s s' _ q1 hst
+    simp only at hrel
+    simp only [projC] at hc
+    obtain ⟨hpos, hnb, cu, cb, ci, cc⟩ := comm_runcb (comm_run_single hc)
+    refine jinv_of (r := r) hi (by rw [hranks, List.length_set]; exact ilen)
+      (by rw [hflight, flightAfter_pack hpend, List.length_cons, cu, ifl]; rfl)
+      (other_of (r := r) (l := .cbpack r uid) hc (by intro l' hl'; simp [projC] at hl'; subst hl'; rfl)
+        (fun q hq => by rw [rankSt_set hrl hranks, if_neg hq]) (fun q _ => by rw [hhb])) ?_
+    intro _
+    rw [rankSt_set hrl hranks, if_pos rfl, cb, ci, cc, upd_same, hhb]
+    refine ⟨hri, ?_, fun _ _ h3 => by omega, fun h1 => by rw [hnb] at h1; cases h1⟩
+    unfold owed at q2 ⊢; rw [hrel.1, hrel.2.1]; omega
+  | ret r =>
+    simp only [nStep, netLabel] at hk
+    obtain ⟨s, s', hs, hst, hranks, _, hflight⟩ := netStep_loc (by intro k v e; cases e) hk
+    obtain ⟨hrs, hrl⟩ := rank_lookup hs
+    simp only [nextHb] at hhb
+    simp only [guard, decide_eq_true_eq] at hg
+    obtain ⟨q1, q2, q3, q4⟩ := iq r hg
+    rw [hrs] at q1 q2 q3
+    obtain ⟨hri, hrel⟩ := step_rinv (P.nc.at r) hn s s' _ q1 hst
+    simp only at hrel
+    simp only [projC, Comm.run, Option.some.injEq] at hc
+    have hc' : Comm.run P.n P.nh S.c (projC P (.ret r)) = some S'.c := by simp [projC, Comm.run, hc]
+    refine jinv_of (r := r) hi (by rw [hranks, List.length_set]; exact ilen)
+      (by rw [hflight, flightAfter_nopack (by intro e; cases e), ← hc]; exact ifl)
+      (other_of (r := r) (l := .ret r) hc' (by intro l' hl'; simp [projC] at hl')
+        (fun q hq => by rw [rankSt_set hrl hranks, if_neg hq]) (fun q _ => by rw [hhb])) ?_
+    intro _
+    rw [rankSt_set hrl hranks, if_pos rfl, ← hc, hhb]
+    refine ⟨hri, ?_, fun h1 h2 h3 => absurd (q3 h1 h2 h3) hrel.2.2, q4⟩
+    unfold owed at q2 ⊢; rw [hrel.1, hrel.2.1]; exact q2
+  | done r =>
+    simp only [nStep, netLabel] at hk
+    obtain ⟨s, s', hs, hst, hranks, _, hflight⟩ := netStep_loc (by intro k v e; cases e) hk
+    obtain ⟨hrs, hrl⟩ := rank_lookup hs
+    simp only [nextHb] at hhb
+    simp only [guard, decide_eq_true_eq] at hg
+    obtain ⟨q1, q2, q3, q4⟩ := iq r hg
+    rw [hrs] at q1 q2 q3
+    obtain ⟨hri, hrel⟩ := step_rinv (P.nc.at r) hn s s' _ q1 hst
+    simp only at hrel
+    simp only [projC, Comm.run, Option.some.injEq] at hc
+    have hc' : Comm.run P.n P.nh S.c (projC P (.done r)) = some S'.c := by simp [projC, Comm.run, hc]
+    refine jinv_of (r := r) hi (by rw [hranks, List.length_set]; exact ilen)
+      (by rw [hflight, flightAfter_nopack (by intro e; cases e), ← hc]; exact ifl)
+      (other_of (r := r) (l := .done r) hc' (by intro l' hl'; simp [projC] at hl')
+        (fun q hq => by rw [rankSt_set hrl hranks, if_neg hq]) (fun q _ => by rw [hhb])) ?_
+    intro _
+    rw [rankSt_set hrl hranks, if_pos rfl, ← hc, hhb]
+    refine ⟨hri, ?_, fun h1 h2 h3 => absurd (q3 h1 h2 h3) hrel.2.2, q4⟩
+    unfold owed at q2 ⊢; rw [hrel.1, hrel.2.1]; exact q2
+  | fb r =>
+    simp only [nStep, netLabel] at hk
+    obtain ⟨s, s', hs, hst, hranks, _, hflight⟩ := netStep_loc (by intro k v e; cases e) hk
+    obtain ⟨hrs, hrl⟩ := rank_lookup hs
+    simp only [nextHb] at hhb
+    simp only [guard, decide_eq_true_eq] at hg
+    obtain ⟨q1, q2, q3, q4⟩ := iq r hg
+    rw [hrs] at q1 q2 q3
+    obtain ⟨hri, hrel⟩ := step_rinv (P.nc.at r) hn s s' _ q1 hst
+    simp only at hrel
+    simp only [projC] at hc
+    obtain ⟨hpos, hnb, cu, cb, ci, cc⟩ := comm_runcb (comm_run_single hc)
+    refine jinv_of (r := r) hi (by rw [hranks, List.length_set]; exact ilen)
+      (by rw [hflight, flightAfter_nopack (by intro e; cases e), cu, ifl]; rfl)
+      (other_of (r := r) (l := .fb r) hc (by intro l' hl'; simp [projC] at hl'; subst hl'; rfl)
+        (fun q hq => by rw [rankSt_set hrl hranks, if_neg hq]) (fun q _ => by rw [hhb])) ?_
+    intro _
+    rw [rankSt_set hrl hranks, if_pos rfl, cb, ci, cc, upd_same, hhb]
+    refine ⟨hri, ?_, fun _ _ h3 => by omega, fun h1 => by rw [hnb] at h1; cases h1⟩
+    unfold owed at q2 ⊢
+    rw [hrel.2.2.1, hrel.2.2.2]; rw [hrel.1, hrel.2.1] at q2
+    simp [b2n] at q2 ⊢ <;> first | done | omega
+  | fe r =>
+    simp only [nStep, netLabel] at hk
+    obtain ⟨s, s', hs, hst, hranks, _, hflight⟩ := netStep_loc (by intro k v e; cases e) hk
+    obtain ⟨hrs, hrl⟩ := rank_lookup hs
+    simp only [nextHb] at hhb
+    simp only [guard, decide_eq_true_eq] at hg
+    obtain ⟨q1, q2, q3, q4⟩ := iq r hg
+    rw [hrs] at q1 q2 q3
+    obtain ⟨hri, hrel⟩ := step_rinv (P.nc.at r) hn s s' _ q1 hst
+    simp only at hrel
+    simp only [projC] at hc
+    obtain ⟨hpos, hnb, cu, cb, ci, cc⟩ := comm_runcb (comm_run_single hc)
+    refine jinv_of (r := r) hi (by rw [hranks, List.length_set]; exact ilen)
+      (by rw [hflight, flightAfter_nopack (by intro e; cases e), cu, ifl]; rfl)
+      (other_of (r := r) (l := .fe r) hc (by intro l' hl'; simp [projC] at hl'; subst hl'; rfl)
+        (fun q hq => by rw [rankSt_set hrl hranks, if_neg hq]) (fun q _ => by rw [hhb])) ?_
+    intro _
+    rw [rankSt_set hrl hranks, if_pos rfl, cb, ci, cc, upd_same, hhb]
+    refine ⟨hri, ?_, fun _ _ _ => hrel.2.2.2, fun h1 => by rw [hnb] at h1; cases h1⟩
+    unfold owed at q2 ⊢
+    rw [hrel.1, hrel.2.2.1]; rw [hrel.2.1] at q2
+    simp [b2n] at q2 ⊢; omega
+  | begin r uid first =>
+    simp only [nStep, netLabel] at hk
+    obtain ⟨d, m, hfl, hflight, hcase⟩ := netStep_deliver hk
+    simp only [nextHb] at hhb
+    simp only [guard, Bool.and_eq_true, decide_eq_true_eq, List.contains_iff_mem, beq_iff_eq] at hg
+    obtain ⟨⟨hrn, hmem⟩, hfirst⟩ := hg
+    have hlt : S.net.flight.idxOf (r, P.opOf uid) < S.net.flight.length := List.idxOf_lt_length_of_mem hmem
+    have hdm : (d, m) = (r, P.opOf uid) := by
+      rw [List.getElem?_eq_getElem hlt, List.getElem_idxOf hlt] at hfl
+      exact (Option.some.inj hfl).symm
+    obtain ⟨hd, hm⟩ := Prod.mk.inj hdm
+    subst hd hm
+    obtain ⟨q1, q2, q3, q4⟩ := iq d hrn
+    -- the Comm side: execBegin, then regcb iff the cache registers
+    have hcomm : ∃ c1, Comm.step P.n P.nh S.c (.execBegin d uid) = some c1 ∧ S'.c.b.und = c1.b.und ∧
+        S'.c.b.busy = c1.b.busy ∧ S'.c.b.inBar = c1.b.inBar ∧
+        S'.c.b.cbs d = if first then c1.b.cbs d + 1 else c1.b.cbs d := by
+      cases first with
+      | true =>
+        simp only [projC, if_true] at hc
+        obtain ⟨c1, h1, h2⟩ := comm_run_two hc
+        obtain ⟨e1, e2, e3, e4⟩ := comm_regcb h2
+        exact ⟨c1, h1, e1, e2, e3, by rw [e4, upd_same]; rfl⟩
+      | false =>
+        simp only [projC, Bool.false_eq_true, if_false] at hc
+        exact ⟨S'.c, comm_run_single hc, rfl, rfl, rfl, rfl⟩
+    obtain ⟨c1, hb1, cu, cb, ci, cc⟩ := hcomm
+    obtain ⟨hpos, hnb, bu, bb, bi, bc⟩ := comm_execBegin hb1
+    have hflen : S'.net.flight.length = S'.c.b.und := by
+      rw [hflight, List.length_eraseIdx, if_pos hlt, cu, bu, ifl]
+    have hrankall : ∀ l' ∈ projC P (.begin d uid first), commRank l' = d := by
+      intro l' hl'
+      cases first <;> simp [projC] at hl'
+      · subst hl'; rfl
+      · rcases hl' with rfl | rfl <;> rfl
+    rcases hcase with ⟨htc, hranks⟩ | ⟨htc, _, s, s', hs, hst, hranks⟩
+    · -- a container operation: the caches are untouched
+      have hf : first = false := by rw [hfirst, htc]; rfl
+      subst hf
+      have hrs' : ∀ q, rankSt S' q = rankSt S q := fun q => by unfold rankSt; rw [hranks]
+      refine jinv_of (r := d) hi (by rw [hranks]; exact ilen) hflen
+        (other_of (r := d) hc hrankall (fun q _ => hrs' q) (fun q hq => by rw [hhb, upd_other _ _ _ _ hq])) ?_
+      intro _
+      rw [hrs' d, cb, bb, ci, bi, cc, bc, hhb, upd_same, upd_same]
+      simp only [Bool.false_eq_true, if_false]
+      exact ⟨q1, q2, (fun h1 => Bool.noConfusion h1), fun _ h2 h3 => by rw [q3 hnb h2 h3]; rfl⟩
+    · -- a forwarded partial value re-enters the cache of this rank
+      obtain ⟨hrs, hrl⟩ := rank_lookup hs
+      rw [hrs] at q1 q2 q3
+      obtain ⟨hri, hrel⟩ := step_rinv (P.nc.at d) hn s s' _ q1 hst
+      simp only at hrel
+      have hfirst' : first = (!s.reg && !(P.nc.at d).isOwner (P.opOf uid).key) := by
+        rw [hfirst, htc, registers, hrs]; rfl
+      have cc' : S'.c.b.cbs d = if first then S.c.b.cbs d + 1 else S.c.b.cbs d := by rw [cc, bc]
+      obtain ⟨ho, hz⟩ := owed_ins hrel hfirst' cc' q2
+      refine jinv_of (r := d) hi (by rw [hranks, List.length_set]; exact ilen) hflen
+        (other_of (r := d) hc hrankall (fun q hq => by rw [rankSt_set hrl hranks, if_neg hq])
+          (fun q hq => by rw [hhb, upd_other _ _ _ _ hq])) ?_
+      intro _
+      rw [rankSt_set hrl hranks, if_pos rfl, cb, bb, ci, bi, hhb, upd_same, upd_same, hrs]
+      refine ⟨hri, ho, (fun h1 => Bool.noConfusion h1), fun _ h2 h3 => ?_⟩
+      obtain ⟨_, hz0⟩ := hz h3
+      rw [q3 hnb h2 hz0]; rfl
+
+theorem run_jinv {P : Par} (hn : 0 < P.nc.nslots) {S S' : St} (jls : List Label) (hi : JInv P S)
+    (h : run P S jls = some S') : JInv P S' := by
+  induction jls generalizing S with
+  | nil => simp only [run] at h; cases h; exact hi
+  | cons l jls ih =>
+    simp only [run] at h
+    cases hst : step P S l with
+    | none => rw [hst] at h; cases h
+    | some S1 => rw [hst] at h; exact ih (step_jinv hn hi hst) h
+
+/-! ### the component histories are recoverable -/
+
+/-- **a joint history is a history of the joint messaging model `Comm`** -/
+theorem run_projC {P : Par} {S S' : St} (jls : List Label) (h : run P S jls = some S') :
+    Comm.run P.n P.nh S.c (jls.flatMap (projC P)) = some S'.c := by
+  induction jls generalizing S with
+  | nil => simp only [run] at h; cases h; rfl
+  | cons l jls ih =>
+    simp only [run] at h
+    cases hst : step P S l with
+    | none => rw [hst] at h; cases h
+    | some S1 =>
+      rw [hst] at h
+      rw [List.flatMap_cons]
+      exact Comm.run_append _ _ (step_some hst).2.1 (ih h)
+
+/-- **a joint history is a history of the system of all adapters `Cache.Net`** (so `reduce_ledger`,
+`reduce_quiescent_spec`, … of `Props/C16.lean` apply), and the contributions `Cache.userContribs` counts are the
+`async_reduce` calls of user code -/
+theorem run_projN {P : Par} {S S' : St} (jls : List Label) (h : run P S jls = some S') :
+    Cache.netRun P.nc S.net (netLabels P S jls) = some S'.net ∧
+      Cache.userContribs (netLabels P S jls) = contribs jls := by
+  induction jls generalizing S with
+  | nil => simp only [run] at h; cases h; exact ⟨rfl, rfl⟩
+  | cons l jls ih =>
+    simp only [run] at h
+    cases hst : step P S l with
+    | none => rw [hst] at h; cases h
+    | some S1 =>
+      rw [hst] at h
+      obtain ⟨i1, i2⟩ := ih h
+      have hk := (step_some hst).2.2.1
+      simp only [netLabels, hst]
+      unfold nStep at hk
+      cases hnl : netLabel P S l with
+      | none =>
+        rw [hnl] at hk
+        simp only [List.nil_append]
+        rw [Option.some.inj hk]
+        refine ⟨i1, ?_⟩
+        rw [i2]
+        cases l <;> simp [netLabel] at hnl
+        simp [contribs]
+      | some nl =>
+        rw [hnl] at hk
+        simp only [List.singleton_append, Cache.netRun, hk]
+        refine ⟨i1, ?_⟩
+        cases l <;> simp only [netLabel, Option.some.injEq] at hnl <;> (try cases hnl) <;>
+          simp [Cache.userContribs, contribs, i2]
+
+/-- at the first return of a barrier the whole adapter system is quiet: nothing in flight, every cache empty, no
+container call in progress -/
+theorem net_quiet_at_exit (P : Par) (hn : 0 < P.nc.nslots) (st0 : List (Nat × Nat)) (jls : List Label) (S : St)
+    (hrun : run P (init P st0) jls = some S) (r : Nat) (hr : r < P.n)
+    (hx : BarrierME.exitEnabled S.c.b r = true) (hne : ∀ q, q < P.n → S.c.b.epoch q ≤ S.c.b.epoch r) :
+    Cache.netQuiet S.net := by
+  have hC : Comm.run P.n P.nh Comm.init (jls.flatMap (projC P)) = some S.c := run_projC jls hrun
+  have hdead := BarrierME.C02ME_exit_implies_quiescent P.n S.c.b _ (Comm.run_projB _ hC) r hr hx _ rfl hne
+  obtain ⟨ilen, ifl, iq⟩ := run_jinv hn jls (jinv_init P st0) hrun
+  refine ⟨?_, List.eq_nil_of_length_eq_zero (by rw [ifl]; exact hdead.1)⟩
+  intro s hs
+  obtain ⟨q, hq, hqs⟩ := List.mem_iff_getElem.1 hs
+  have hqn : q < P.n := by rw [← ilen]; exact hq
+  have hrs : rankSt S q = s := by
+    unfold rankSt
+    rw [List.getD_eq_getElem?_getD, List.getElem?_eq_getElem hq, hqs]; rfl
+  obtain ⟨_, _, hb, hcb⟩ := hdead.2 q hqn
+  obtain ⟨⟨_, hflag, _⟩, how, hd, _⟩ := iq q hqn
+  rw [hrs] at hflag how hd
+  have hst : s.stack = [] := hd hb (hdead.2 q hqn).2.1 hcb
+  have hreg : s.reg = false := by
+    rw [hcb] at how
+    unfold owed at how
+    cases h : s.reg with
+    | false => rfl
+    | true => rw [h] at how; simp [b2n] at how
+  refine ⟨hst, ?_⟩
+  obtain ⟨ts, _, hcase⟩ := hflag hreg
+  rcases hcase with ⟨_, he⟩ | ⟨i, ph, h1, _⟩
+  · exact he
+  · rw [hst] at h1
+    cases ts <;> simp at h1
+
+/-- **C16 end to end** (`ygm::container::reducing_adapter`).  For every number of ranks, every routing function of the
+communicator, every cache size, every key partitioner, every next-hop function of the adapter, every associative and
+commutative reducer and every history of the PRODUCT of the joint messaging model with the system of all adapter
+caches — `async_reduce` from main programs and from handlers, owner bypass, evictions, partial values forwarded hop by
+hop and re-entering the cache of the next rank in handler context, the pre-barrier flush-all callback with handlers
+running during its sends, any interleaving, any number of barriers —: at the FIRST return of a barrier the whole system
+is quiet and the target container's entry of every key is the fold of its previous value (if any) with EVERY value
+passed to `async_reduce` for that key so far, on any rank, each exactly once. -/
+theorem C16_reduce_after_barrier (P : Par) [Std.Associative P.nc.op] [Std.Commutative P.nc.op]
+    (hn : 0 < P.nc.nslots) (st0 : List (Nat × Nat)) (jls : List Label) (S : St)
+    (hrun : run P (init P st0) jls = some S) (r : Nat) (hr : r < P.n)
+    (hx : BarrierME.exitEnabled S.c.b r = true) (hne : ∀ q, q < P.n → S.c.b.epoch q ≤ S.c.b.epoch r) (k : Nat) :
+    Cache.storedOf k S.net.stored =
+      Cache.omerge P.nc.op (Cache.storedOf k st0) (Cache.total P.nc.op (Cache.valsOf k (contribs jls))) ∧
+    Cache.netQuiet S.net := by
+  have hq := net_quiet_at_exit P hn st0 jls S hrun r hr hx hne
+  obtain ⟨hN, hU⟩ := run_projN jls hrun
+  have := Cache.reduce_quiescent_spec P.nc P.n st0 _ S.net hN hq k
+  rw [hU] at this
+  exact ⟨this, hq⟩
+
+/-! ### non-vacuity (C16) -/
+
+section ReduceExample
+
+/-- which message each uid carries: partial values travelling to the next hop (`toContainer = false`) and container
+operations executed by the owner (`toContainer = true`) -/
+private def rdOp : Nat → Cache.Msg Nat
+  | 1 => ⟨false, 1, 10⟩
+  | 2 => ⟨true, 1, 5⟩
+  | 3 => ⟨true, 1, 10⟩
+  | 4 => ⟨false, 3, 7⟩
+  | _ => ⟨true, 3, 7⟩
+
+/-- 2 ranks, sum, a 2-slot cache (keys 1 and 3 collide), every key owned by rank 1 -/
+private def rdNc : Cache.NetCfg Nat := { nslots := 2, op := (· + ·), owner := fun _ => 1, nh := fun _ o => o }
+
+private def rdPar : Par := { n := 2, nc := rdNc, nh := fun _ d => d, opOf := rdOp }
+
+instance : Std.Associative rdPar.nc.op := ⟨Nat.add_assoc⟩
+instance : Std.Commutative rdPar.nc.op := ⟨Nat.add_comm⟩
+
+private def rdRound2 : List Label :=
+  [.comm (.contribute 0), .comm (.contribute 1), .comm (.result 0), .comm (.result 1)]
+
+/-- rank 0 contributes (1, 10) (cached, registers the callback) and (3, 7), which EVICTS (1, 10) towards rank 1; the
+owner, rank 1, contributes (1, 5) (owner bypass: a container operation to itself).  Inside the barrier the evicted
+partial value re-enters the adapter on rank 1 in handler context (bypass again: uid 3), the pre-barrier callback of
+rank 0 flushes (3, 7), which takes the same path (uid 4, then uid 5). -/
+private def rdDemo : List Label :=
+  [.user 0 1 10 true, .done 0, .user 0 3 7 false, .pack 0 1, .ret 0, .done 0,
+   .user 1 1 5 false, .pack 1 2, .ret 1, .done 1,
+   .comm (.enter 0), .comm (.enter 1),
+   .comm (.isend 0 1), .comm (.recvBegin 1 0 0), .begin 1 1 false, .pack 1 3, .ret 1, .done 1,
+   .comm (.execEnd 1 1), .comm (.recvEnd 1),
+   .fb 0, .cbpack 0 4, .ret 0, .fe 0,
+   .comm (.isend 1 1), .comm (.recvBegin 1 1 0), .begin 1 2 false, .comm (.execEnd 1 2),
+   .begin 1 3 false, .comm (.execEnd 1 3), .comm (.recvEnd 1),
+   .comm (.isend 0 1), .comm (.recvBegin 1 0 1), .begin 1 4 false, .pack 1 5, .ret 1, .done 1,
+   .comm (.execEnd 1 4), .comm (.recvEnd 1),
+   .comm (.isend 1 1), .comm (.recvBegin 1 1 1), .begin 1 5 false, .comm (.execEnd 1 5), .comm (.recvEnd 1)]
+  ++ rdRound2 ++ rdRound2
+
+set_option maxRecDepth 65536 in
+/-- the joint history is accepted; at its end the exit rule holds and nobody has left barrier 0 … -/
+example : ((run rdPar (init rdPar []) rdDemo).map (fun S =>
+    (S.c.d.executed, BarrierME.exitEnabled S.c.b 0, (List.range 2).map S.c.b.epoch))) =
+    some ([(1, 1), (1, 2), (1, 3), (1, 4), (1, 5)], true, [0, 0]) := by decide
+
+set_option maxRecDepth 65536 in
+/-- … the target container holds 1 ↦ 10 + 5 and 3 ↦ 7, nothing is in flight, both caches are back in their initial
+state -/
+example : ((run rdPar (init rdPar []) rdDemo).map (fun S =>
+    (S.net.stored, S.net.flight.length, decide (S.net.ranks = [Cache.St.init, Cache.St.init])))) =
+    some ([(1, 15), (3, 7)], 0, true) ∧ contribs rdDemo = [(1, 10), (3, 7), (1, 5)] := by decide
+
+/-- the end-to-end theorem applied to the demo -/
+example (S : St) (hrun : run rdPar (init rdPar []) rdDemo = some S) (hx : BarrierME.exitEnabled S.c.b 0 = true)
+    (hne : ∀ q, q < 2 → S.c.b.epoch q ≤ S.c.b.epoch 0) :
+    Cache.storedOf 1 S.net.stored = some 15 := by
+  have h := (C16_reduce_after_barrier rdPar (by decide) [] rdDemo S hrun 0 (by decide) hx hne 1).1
+  rw [h]
+  decide
+
+set_option maxRecDepth 65536 in
+/-- the joint guards bite: `barrier()` cannot be entered with a container call in progress; a handler cannot return
+before the `cache_reduce` it made has returned; user code cannot call `async_reduce` on a rank that waits in the
+barrier and runs no handler -/
+example :
+    (run rdPar (init rdPar []) [.user 1 1 5 false, .comm (.enter 1)]).isNone = true ∧
+    (run rdPar (init rdPar []) [.user 0 1 10 true, .done 0, .user 0 3 7 false, .pack 0 1, .ret 0, .done 0,
+      .comm (.isend 0 1), .comm (.recvBegin 1 0 0), .begin 1 1 false, .comm (.execEnd 1 1)]).isNone = true ∧
+    (run rdPar (init rdPar []) [.comm (.enter 1), .user 1 1 5 false]).isNone = true := by decide
+
+end ReduceExample
+
+end YgmVerif.ReduceComm
